@@ -1,5 +1,6 @@
 import PydlVerif.Model.JsonUtil
 import PydlVerif.Model.SpecOrder
+import PydlVerif.Model.SpecFiles
 open Lean
 namespace PydlVerif.Driver.C16
 open PydlVerif PydlVerif.SpecOrder
@@ -119,6 +120,54 @@ def handle (j : Json) : Except String Json := do
       | _ => throw "pair expected") (← J.fld j "files")
     let plates ← J.fNats j "plates"
     pure (J.ofList J.ofNat (plates.map (latestMjd files)))
+  | "fsnames" =>
+    -- spec_path / file names: {"path": str|null, "topdir": str, "run2d": str, "pairs": [[plate, mjd], ...]}
+    let path ← J.fOpt J.str j "path"
+    let topdir ← J.fStr j "topdir"
+    let run2d ← J.fStr j "run2d"
+    let pairs ← J.list (J.list J.nat) (← J.fld j "pairs")
+    let plates := pairs.map (fun pr => pr.getD 0 0)
+    let dirs := specPath (path.map String.toList) topdir.toList run2d.toList plates
+    let files := (pairs.zip dirs).map (fun (pr, d) => specFile d (pr.getD 0 0) (pr.getD 1 0))
+    let names := pairs.map (fun pr => specFileName (pr.getD 0 0) (pr.getD 1 0))
+    pure (Json.mkObj [("dirs", J.ofList (fun d => Json.str (String.ofList d)) dirs),
+      ("files", J.ofList (fun d => Json.str (String.ofList d)) files),
+      ("names", J.ofList (fun d => Json.str (String.ofList d)) names)])
+  | "latestfs" =>
+    -- latest_mjd over directory listings: {"path","topdir","run2d","dirs": [[dir, [names]], ...], "plates": [...]}
+    let path ← J.fOpt J.str j "path"
+    let topdir ← J.fStr j "topdir"
+    let run2d ← J.fStr j "run2d"
+    let dirs ← J.list (fun d => do
+      match ← J.arr d with
+      | #[a, b] => pure ((← J.str a).toList, (← J.list J.str b).map String.toList)
+      | _ => throw "pair expected") (← J.fld j "dirs")
+    let ls : List Char → List (List Char) := fun d => ((dirs.find? (fun x => x.1 == d)).map (·.2)).getD []
+    let plates ← J.fNats j "plates"
+    match latestMjdVec ls (path.map String.toList) topdir.toList run2d.toList plates with
+    | .ok l => pure (J.ofList J.ofNat l)
+    | .error e => pure (Json.mkObj [("err", Json.str e)])
+  | "globmatch" =>
+    -- which names of a listing does the glob of `plate` pick: {"plate", "names"}
+    let plate ← J.fNat j "plate"
+    let names ← J.list J.str (← J.fld j "names")
+    pure (J.ofList (fun n => Json.str n) (names.filter (fun n => globMatch plate n.toList)))
+  | "readspecfs" =>
+    -- readspec(path=dir) on a directory listing: tree files carry "name" (the file name on disk), "listing" = os.listdir
+    let fs ← J.list fileOfJson (← J.fld j "tree")
+    let names ← J.list (fun f => J.fStr f "name") (← J.fld j "tree")
+    let dir ← J.fStr j "dir"
+    let listing := (← J.list J.str (← J.fld j "listing")).map String.toList
+    let table := (names.map String.toList).zip fs
+    let dflt : PlateFile Float Row := ⟨0, 0, 0, 0, fun _ _ => [], fun _ => [], none, none⟩
+    let content : List Char → PlateFile Float Row := fun n => ((table.find? (fun x => x.1 == n)).map (·.2.file)).getD dflt
+    let reqs ← J.arr (← J.fld j "reqs")
+    let out ← reqs.toList.mapM (fun q => do
+      let platein ← argOf J.nat (← J.fld q "plate")
+      let mjd ← J.fOpt (argOf J.nat) q "mjd"
+      let fiber ← argOf J.int (← J.fld q "fiber")
+      pure (resultJ (readspecFS argsortImpl dir.toList listing content platein mjd fiber)))
+    pure (Json.arr out.toArray)
   | _ => throw s!"C16: unknown op {op}"
 
 end PydlVerif.Driver.C16
